@@ -51,6 +51,8 @@ def run(shard, rec, tier, seed):
                 rec.count("base-spec-rejected-by-generator")
                 continue
             rec.count("trees-staged")
+            if t.generator_reused:
+                rec.count("trees-generated-by-an-instance-that-read-an-earlier-revision")
             log = frames.FrameLog()
             n = frames.install(log)
             rec.count("classes-wrapped", n)
